@@ -778,8 +778,17 @@ class Emitter:
         elif name and name.startswith('llvm.'):
             raise NotImplementedError('intrinsic ' + name)
         elif name == '__CPROVER_assert':
-            msg = s.string_of(args[1])
-            w('  __CPROVER_assert(%s, "%s");' % (s.val(args[0]), msg)); done = True
+            d = s.defs.get(args[1].name) if isinstance(args[1], Local) else None
+            if d is not None and d.op == 'select' and s.string_of(d.args[1]) != '?' and s.string_of(d.args[2]) != '?':
+                # clang merged two assertions that differ only in their text: keep both texts apart
+                w('  if (%s) __CPROVER_assert(%s, "%s"); else __CPROVER_assert(%s, "%s");' %
+                  (s.val(d.args[0]), s.val(args[0]), s.string_of(d.args[1]), s.val(args[0]), s.string_of(d.args[2])))
+            elif d is not None and d.op == 'phi' and all(s.string_of(v) != '?' for (v, _) in d.extra['incoming']):
+                w('  __CPROVER_assert(%s, "%s");' % (s.val(args[0]), ' | '.join(sorted(set(s.string_of(v) for (v, _) in d.extra['incoming'])))))
+            else:
+                msg = s.string_of(args[1])
+                w('  __CPROVER_assert(%s, "%s");' % (s.val(args[0]), msg))
+            done = True
         elif name == '__CPROVER_assume':
             w('  __CPROVER_assume(%s);' % s.val(args[0])); done = True
         elif name == '__assert_fail':
@@ -1198,6 +1207,7 @@ EXT_MODELS = {
     '_ZNSt15__exception_ptr13exception_ptr10_M_releaseEv': ('rt_eptr_release', 1),
     '_ZNSt15__exception_ptr13exception_ptrC1EPv': ('rt_eptr_ctor', 2),
     '_ZSt9terminatev': ('rt_terminate', 0),
+    '_ZSt19uncaught_exceptionsv': ('rt_uncaught_exceptions', 0), '_ZSt18uncaught_exceptionv': ('rt_uncaught_exceptions', 0),
     '__cxa_pure_virtual': ('rt_terminate', 0),
     '__cxa_thread_atexit': ('rt_thread_atexit', 2), '_ZNSt9exceptionD2Ev': ('rt_nop', 0),
     '_ZSt17__throw_bad_allocv': ('rt_throw_lib', 0), '_ZSt20__throw_length_errorPKc': ('rt_throw_lib', 0),
